@@ -251,10 +251,13 @@ def run(chk):
     if mc is not None:
         T = flow.Terms(p, mc)
         acd = names.calls_to(mc, "AttestedCredentialData::new")
-        pk = find_aggs(mc, "Passkey")
-        if acd and pk:
-            a = flow.simplify_term(T.operand(acd[0][1]["args"][2], acd[0][0], "t"))
-            k = flow.simplify_term(T.operand(pk[0][2]["ops"][pk[0][2]["fields"].index("key")], pk[0][0], pk[0][1]))
+        from .common import saved_passkey
+        from . import normal, summary
+        Nn = normal.Normalizer(p, summary.Summaries(p))
+        pk, _sbb = saved_passkey(p, mc, T, Nn)
+        if acd and pk and "key" in pk:
+            a = Nn.norm(T.operand(acd[0][1]["args"][2], acd[0][0], "t"))
+            k = pk["key"]
             chk.ob("R3 routing", "R3|make_credential", a[0] == "field" and a[2] == "public" and k[0] == "field" and k[2] == "private" and a[1] == k[1], where(mc, acd[0][0]), "attested <- .%s ; stored <- .%s of one key pair" % (a[2] if a[0] == "field" else "?", k[2] if k[0] == "field" else "?"))
     ur = u2f_body(p, "register") if u2f_trait else None
     if chk.require("R3 routing", "R3|U2fApi::register", ur, AUTH, "U2F register not found"):
